@@ -10,7 +10,7 @@ Definition vz (v : tval) : Z :=
   let n := vn v in if N.even n then Z.of_N (N.div2 n) else Z.opp (Z.of_N (N.div2 (n + 1))).
 Definition enc_z (z : Z) : N := if Z.ltb z 0 then Z.to_N (Z.opp z * 2 - 1) else Z.to_N (z * 2).
 
-(* case = [ [dfix; atomic_incr; now; cfix; index_first] ; threads ; sched ; reg ; cloud ; obs ]
+(* case = [ [dfix; atomic_incr; now; cfix; index_first; error_stops_lookup] ; threads ; sched ; reg ; cloud ; obs ]
    thread = [ client ; ops ; faults ; results ]
    op = [0; sub; base; tgt] | [1; is_mine; k_or_id] | [2; k; st; exp; tgt] | [3; host; now] | [4] | [5; now] (cleanup)
    result = [kind; a; b; c; d]   0 created id | 1 deleted | 2 updated | 3 routed from_repo id client tgt | 4 reset | 5 error code
@@ -66,7 +66,7 @@ Definition enc_res (r : res) : tval :=
 
 Definition model_run (v : tval) : shared * list thr :=
   let fl := vnth 0 v in
-  drun (vbool (vnth 0 fl)) (vbool (vnth 1 fl)) (vbool (vnth 3 fl)) (vbool (vnth 4 fl))
+  drun (vbool (vnth 0 fl)) (vbool (vnth 1 fl)) (vbool (vnth 3 fl)) (vbool (vnth 4 fl)) (vbool (vnth 5 fl))
        (tbl (map dec_legacy (vl (vnth 3 v)))) (tbl (map dec_legacy (vl (vnth 4 v))))
        empty_store (map dec_thread (vl (vnth 1 v))) (map vnat (vl (vnth 2 v))).
 
